@@ -51,6 +51,9 @@ var c08Templates = [][]string{
 	{"{ a; } @H | cat @H"}, {"cat @H | {", "cat @H", "}"},
 	// three sites
 	{"cat @H @H @H"}, {"cat @H | cat @H | cat @H"}, {"cat @H; { cat @H; } @H"},
+	// a substitution that closes while its own here-document (<<Z) is still pending sits next to the site; what
+	// <<Z itself receives is left open (POSIX does not say), but it must not disturb the site's body
+	{"cat @H $(cat <<Z)"}, {"cat @H `cat <<Z`"}, {"cat $(cat <<Z) @H"}, {"cat @H $(cat <<Z) @H"}, {"cat @H | b $(cat <<Z; c <<Z)"},
 }
 
 func c08Sites(t []string) int {
@@ -125,7 +128,12 @@ func c08Check(c c08Case, cmds []ast.Command, err error) string {
 	if err != nil {
 		return fmt.Sprintf("the program is rejected: %v", err)
 	}
-	rs := collectRedirs(cmds)
+	var rs []*ast.Redir
+	for _, r := range collectRedirs(cmds) {
+		if d, _ := printNode(r.Word); d != "Z" { // <<Z: see c08Templates
+			rs = append(rs, r)
+		}
+	}
 	if len(rs) != len(c.Sites) {
 		return fmt.Sprintf("%d here-document redirections in the AST, the source has %d", len(rs), len(c.Sites))
 	}
